@@ -48,7 +48,7 @@ PROPS["C13"] = dict(
 
 PROPS["C15"] = dict(
     level="other", claimed=True,
-    level_text='Kani contracts on the integer part (layer count and position-to-leaf-index map complete over their admissible domains; position folding bounded in list length). Native bounded stand-in for whole FRI runs on the real prover and verifier: honest proofs of the full parameter grid are accepted after serialization (reused prover, repeated positions, base fields, quadratic and cubic extensions, layers above 64 KiB).',
+    level_text='Verus (body cut out of /repo): fold_positions returns, for every list of positions and every domain, exactly the set of folded positions - every image present, nothing else, no repetition, all below the folded domain size. Kani contracts on the rest of the integer part (layer count and position-to-leaf-index map complete over their admissible domains; position folding again, bounded in list length, with counterexamples). Native bounded stand-in for whole FRI runs on the real prover and verifier: honest proofs of the full parameter grid are accepted after serialization (reused prover, repeated positions, base fields, quadratic and cubic extensions, layers above 64 KiB).',
     level_note='The folding identity of apply_drp for symbolic field values is beyond the SAT back end; it is exercised, not proved. Bounded stand-ins are listed under coverage.native_bounded_standins.',
     explanation=MIX)
 PROPS["C16"] = dict(
